@@ -262,6 +262,16 @@ WorkerStep(w) == WTop(w) \/ WLock(w) \/ WGotUnlock(w) \/ WChk(w) \/ WNoneUnlock(
 WorkersDone == \A w \in Workers : W[w].pc \in {"unborn", "exit"}
 Done == C.pc = "gone" /\ WorkersDone /\ UNCHANGED vars
 Next == CoordStep \/ (\E w \in Workers : WorkerStep(w)) \/ Done
+\* Safety must not depend on the absence of spurious wake-ups (liveness is checked without them; the runtime
+\* never produces one, so this action is model-only)
+WSpurious(w) ==
+  /\ W[w].pc = "sleep" /\ w \notin Q.notified /\ Q.owner = 0
+  /\ IF Q.items # <<>>
+       THEN /\ Q' = [Q EXCEPT !.owner = w, !.items = Tail(@), !.waiting = @ \ {w}]
+            /\ W' = [W EXCEPT ![w].pc = "gotUnlock", ![w].item = Head(Q.items)]
+       ELSE /\ Q' = [Q EXCEPT !.owner = w, !.waiting = @ \ {w}] /\ W' = WGo(w, "chk")
+  /\ UNCHANGED <<CH, SH, C>>
+SpecSpur == Init /\ [][Next \/ \E w \in Workers : WSpurious(w)]_vars
 Spec == Init /\ [][Next]_vars /\ WF_vars(CoordStep) /\ \A w \in Workers : WF_vars(WorkerStep(w))
 SpecSafe == Init /\ [][Next]_vars
 
